@@ -145,6 +145,16 @@ Proof.
   intros i slots a rest s g Hc Hz. pick_case i Hc. rewrite Hz. reflexivity.
 Qed.
 
+(* GLOBALZERO (a package-level `var x T`): a variable that already holds a non-nil value is left alone *)
+Theorem vm_globalzero_step : forall i slots ops s g, icode i = C "codeGlobalZero" ->
+  znth (globals s) (iA i) = Some g ->
+  step_gen i slots ops s =
+    Some (if Value_IsNil g then SNext slots ops (set_global s (iA i) (Value_assign (fn_newZero (iB i)) (vt g)))
+          else SNext slots ops s).
+Proof.
+  intros i slots ops s g Hc Hz. pick_case i Hc. rewrite Hz. destruct (Value_IsNil g); reflexivity.
+Qed.
+
 (* LOCALADD / SUB / MUL / DIV: left operand = slot iA, right operand = slot iB, result pushed *)
 Definition vm_local_binops : list (string * binop) :=
   [ ("codeLocalAdd", BRes Value_opAdd);
